@@ -640,6 +640,41 @@ pub fn run(ctx: &Ctx, rep: &mut Report) {
             }
         }
     }
+    // (std build) a group that is *delivered* although its payload passes 2^28 bytes (2^29 and 2^30
+    // in the thorough tier): five long fragments, two short ones - whatever limit an
+    // implementation has, an accepted fragment is part of what is delivered
+    if mon::CFG == "std" {
+        let mut item = 9600u64;
+        let mut totals = vec![1usize << 28];
+        if ctx.thorough() {
+            totals.extend_from_slice(&[1 << 29, 1 << 30]);
+        }
+        for total in totals {
+            if !ctx.mine(item) {
+                item += 1;
+                continue;
+            }
+            item += 1;
+            let mut lk = Lock::new(PID);
+            let piece = total / 4 + 1000;
+            for k in 1..=5u8 {
+                let mut v = uniq_payload(k as u64);
+                v.extend(std::iter::repeat(b'0' + k).take(piece));
+                let st = lk.feed_hdr(rep, 7, k, Some(7), &v, 0, false, None, "huge-delivered");
+                lk.log.clear();
+                lk.log.push((format!("... fragments 1..{} of 7 (id 7), {} payload characters each ...", k, piece + 6).into_bytes(), false));
+                if st.violated {
+                    break;
+                }
+            }
+            let c1 = lk.next_ctr();
+            lk.feed_hdr(rep, 7, 6, Some(7), &uniq_payload(c1), 0, false, None, "huge-delivered");
+            let c2 = lk.next_ctr();
+            lk.feed_hdr(rep, 7, 7, Some(7), &uniq_payload(c2), 0, false, None, "huge-delivered");
+            rep.count("huge-delivered-groups");
+            rep.class(format!("huge-delivered|2^{}", total.trailing_zeros()));
+        }
+    }
     for c in REQUIRED_CELLS {
         rep.require(&format!("cell:{}", c));
     }
